@@ -515,10 +515,18 @@ func workerRLock(e *env, g int) {
 			log.add(Ev{Op: "rel-ret", Key: k, OK: ok, Res: res, Err: es, Dep: depth})
 			if !ok {
 				e.noteErr(res, "release:"+errClass(res, es))
+				if es != "" && es != "result" {
+					// the reply of this Unlock was lost (cut connection, client-side wait timeout): whether the server
+					// released the level is unknown, so the object may still hold the key afterwards
+					connTrouble = true
+				}
 			}
 			if depth > 0 && want < 10 {
 				hold(rng, sc.HoldUsMax/8)
 			}
+		}
+		if connTrouble {
+			objs[k] = nil
 		}
 		// one unlock too many must be refused (the object holds nothing any more)
 		if rng.Intn(5) == 0 && !connTrouble {
